@@ -9,10 +9,22 @@ Exhaustive enumeration (E3) on the real `io.SequenceDataSource`,
             recursively for nested shards; laws: concatenation of the shards ==
             the parent (=> disjoint, complete, ordered), sizes differ by <= 1,
             `len(shard) == len(list(shard))`, `root.from_state(shard.state)`
-            (directly, pickled, and through the iterator) yields the same rows.
-* iterable: `ShardedIterable` single level (round robin): same laws.
+            (directly, pickled, and through the iterator) yields the same rows,
+            and so does the shard's own iterator resumed from its own state.
+* receiver: the methods of the source API invoked on a receiver that is itself
+            a shard / nested shard / iterator / restored object instead of the
+            root source: every reachable receiver x the recorded state of every
+            reachable target -> `receiver.from_state(state)` is the target
+            (rows and len); shard/len/state of a restored object == those of
+            the original; `MultiplexIterator` over the shards of every object,
+            stopped after every h rows and resumed by `from_state` on itself, on
+            an unused multiplex, on one over the sibling shards, and on the
+            restored multiplex.
+* iterable: `ShardedIterable` single level (round robin): same laws; every
+            shard (source, iterator, restored) rebuilds every sibling shard.
 * merged:   every split of n rows into <= P (possibly empty) sub-sequences x
-            every integer index x every slice x max_batch_size x container kind;
+            every integer index x every slice x max_batch_size x container kind
+            (including sub-sequences that are themselves MergedSequences);
             oracle: the concatenated Python list (including IndexError).
 * range:    `_RangeIterator` / `MergedSequences` over a sub-sequence with one
             failing element at each position x every [start, stop) x read-ahead
@@ -181,24 +193,21 @@ def _check_recovered(st, where, case, root, node, rows):
     st.violation(f'C09:{where}.from_state:recovered-len-differs',
                  {'case': case, 'state': repr(state), 'got': got,
                   'expected': len(rows)}, replay={'case': case})
-  # the receiver is the shard itself: a shard (its iterator, after one step)
-  # resumes from its own recorded state (all receivers x all states: see the
-  # `receiver` harness)
+  # the receiver is the shard itself: the iterator of a shard, after one step,
+  # resumes from its own recorded state (every receiver x every state at small
+  # n: see the `receiver` harness)
   def own_iterator():
     it = node.iterate()
     head = [next(it) for _ in range(min(1, len(rows)))]
     return head + list(it.from_state(it.state))
 
-  for name, fn in (
-      ('from_state(own-state)[receiver=the-shard-itself]',
-       lambda: list(node.from_state(state))),
-      ('iterate().from_state(own-state)[receiver=the-shard-itself]',
-       own_iterator)):
-    got = _try(fn)
-    if got != ('ok', rows):
-      st.violation(f'C09:{where}.{name}:recovered-shard-differs',
-                   {'case': case, 'state': repr(state), 'got': got,
-                    'expected': rows}, replay={'case': case})
+  got = _try(own_iterator)
+  if got != ('ok', rows):
+    st.violation(f'C09:{where}.iterate().from_state(own-state)'
+                 '[receiver=the-iterator-of-the-shard-itself]:'
+                 'recovered-shard-differs',
+                 {'case': case, 'state': repr(state), 'got': got,
+                  'expected': rows}, replay={'case': case})
 
 
 def _check_node(st, where, case, root, node, rows):
@@ -412,6 +421,7 @@ def check_receivers(st, split, depth, recv_depth, chunk=(0, 1)):
       recv = recv[1]
       sized = form != 'SequenceIterator'
       where = f'{form}({_level_name(rpath)}).from_state'
+      seen = []
       for tpath, tstate, trows in targets:
         case = ('receiver', split, rpath, form, tpath)
         st.case(case, nontrivial=nontrivial)
@@ -421,7 +431,7 @@ def check_receivers(st, split, depth, recv_depth, chunk=(0, 1)):
           return (len(got) if sized else None), list(got)  # pylint: disable=cell-var-from-loop
 
         got = _try(rebuild)
-        st.outcome((form, len(rpath), got))
+        seen.append(got)
         if got != ('ok', (len(trows) if sized else None, trows)):
           st.violation(
               f'C09:{where}:recovered-object-differs',
@@ -429,6 +439,7 @@ def check_receivers(st, split, depth, recv_depth, chunk=(0, 1)):
                'receiver_yields': rrows, 'state': repr(tstate),
                'got (len, rows)': got, 'expected_rows': trows},
               replay={'case': ('receiver', split, depth, recv_depth)})
+      st.outcome((form, len(rpath), tuple(seen)))
 
 
 def check_restored_api(st, split, depth):
@@ -729,7 +740,13 @@ def check_merged(st, split, kind, mbs, only=None):
   from ml_metrics._src.utils import iter_utils
   n = sum(split)
   rows = [val(i) for i in range(n)]
-  pieces = [_container(kind, p) for p in enums.cut(rows, split)]
+  if isinstance(kind, tuple):
+    # ('merged', cuts): sub-sequence j is itself a MergedSequences of its rows
+    # cut at cuts[j] (a merged sequence nested in a merged sequence)
+    pieces = [iter_utils.MergedSequences([p[:c], p[c:]], max_batch_size=mbs)
+              for p, c in zip(enums.cut(rows, split), kind[1])]
+  else:
+    pieces = [_container(kind, p) for p in enums.cut(rows, split)]
   make = lambda: iter_utils.MergedSequences(pieces, max_batch_size=mbs)
   nontrivial = n > 0
   case = ('merged', split, kind, mbs)
@@ -778,13 +795,18 @@ def check_merged(st, split, kind, mbs, only=None):
 
 
 def _merged_unit(args):
-  splits, kinds, mbss, want_sample = args
+  splits, kinds, mbss, nested, want_sample = args
+  n_nested, p_nested, mbs_nested = nested
   st = Stats()
   with _Deadline(300):
     for split in splits:
       for kind in kinds:
         for mbs in mbss:
           check_merged(st, tuple(split), kind, mbs)
+      if sum(split) <= n_nested and 0 < len(split) <= p_nested:
+        for cuts in itt.product(*[range(size + 1) for size in split]):
+          for mbs in mbs_nested:
+            check_merged(st, tuple(split), ('merged', cuts), mbs)
   if want_sample and splits:
     from ml_metrics._src.utils import iter_utils
     split = tuple(max(splits, key=sum))
@@ -953,8 +975,10 @@ def run(ctx):
   n_merged, p_merged = (5, 4) if quick else (7, 5)
   # receivers: (max n, nesting depth of the targets, of the receivers)
   recv_single = ((2, 2, 2), (3, 2, 1)) if quick else ((3, 2, 2), (6, 2, 1))
-  recv_multi = ((1, 2, 2), (2, 2, 1)) if quick else ((2, 2, 2), (4, 2, 1))
+  recv_multi = ((0, 2, 2), (2, 2, 1)) if quick else ((2, 2, 2), (4, 2, 1))
   mbss = (1, 2, 3, 64)
+  # merged sequences nested in a merged sequence: (max n, max parts, sizes)
+  nested = (3, 3, (1, 64)) if quick else (6, 3, mbss)
   n_range = 6 if quick else 10
   range_mbss = (1, 2, 3, 4, 5, 8, 16, 64)
   ctx.rule = (
@@ -963,7 +987,7 @@ def run(ctx):
       f'<={p_multi} possibly empty sub-sequences (from_sequences, depth 2) x '
       'every k in 1..len+2 x every shard index x every offset 0..len at every '
       'level, each rebuilt from its state through the source and through '
-      'itself; receivers (from_state / shard / len / iterate invoked on an '
+      'its own iterator; receivers (from_state / shard / len / iterate invoked on an '
       'object that is itself a shard, a nested shard, an iterator or restored): '
       'O_d = every object reachable by <= d shard(i,k,offset) calls; every '
       'receiver in O_r {as source, as iterator after one step, restored from '
@@ -983,7 +1007,10 @@ def run(ctx):
       f'MergedSequences: every split of n<={n_merged} rows into <={p_merged} '
       'possibly empty sub-sequences (and zero sub-sequences) x {list, tuple, '
       'index-only} x every index in [-n-1,n] x every slice bound pair in '
-      f'([-n-1,n+1] + None)^2 x max_batch_size in {mbss}; _RangeIterator: '
+      f'([-n-1,n+1] + None)^2 x max_batch_size in {mbss}, and the same with '
+      f'every sub-sequence itself a MergedSequences (n<={nested[0]}, <='
+      f'{nested[1]} sub-sequences, each cut in two at every position, '
+      f'max_batch_size in {nested[2]}); _RangeIterator: '
       f'n<={n_range} x every unreadable position x sliceable/index-only x every '
       f'0<=start<=stop<=n x max_batch_size in {range_mbss}, and the same '
       'through MergedSequences slices of <=3 sub-sequences; non-trivial = at '
@@ -994,6 +1021,10 @@ def run(ctx):
       'list/tuple/an index-only class/a re-iterable class',
       'ShardedIterable is checked single level (its shard() replaces instead '
       'of nesting, by design)',
+      'receiver harness: the expected rows of a reachable object are the rows '
+      'it yields itself (their partition laws are checked by the shard harness '
+      'on a superset of these sources); from_state is required to be '
+      'independent of the shard position of its receiver (same data)',
       'slices with a step are documented as unsupported and are not enumerated',
       'an unreadable element raises ValueError; a sliceable container fails a '
       'slice read eagerly (nothing of the slice is returned)',
@@ -1035,8 +1066,8 @@ def run(ctx):
   if 'merged' in only:
     splits = [()] + _splits(n_merged, p_merged)
     kinds = ('list', 'tuple', 'index-only')
-    work += [('_merged_unit', (u, kinds, mbss, i == 0)) for i, u in enumerate(
-        enums.chunks(ctx.shuffled(splits), 64))]
+    work += [('_merged_unit', (u, kinds, mbss, nested, i == 0))
+             for i, u in enumerate(enums.chunks(ctx.shuffled(splits), 64))]
     ctx.notes['merged_splits'] = len(splits)
   if 'range' in only:
     cases = [(n, bad) for n in range(1, n_range + 1) for bad in range(n)]
@@ -1068,7 +1099,7 @@ def replay(ctx, data):
   elif kind in ('iterable', 'iterable-multiplex'):
     ctx.merge(_iterable_unit(([case[1]], (case[2],), False)))
   elif kind == 'merged':
-    check_merged(ctx, tup(case[1]), case[2], case[3],
+    check_merged(ctx, tup(case[1]), tup(case[2]), case[3],
                  only=data['replay'].get('only'))
   elif kind == 'range':
     check_range(ctx, *case[1:])
